@@ -13,6 +13,8 @@ from hypothesis import strategies as st
 def motif_edges(kind, vs):
     if kind in ("clique", "split4"):
         return [tuple(p) for p in combinations(vs, 2)]
+    if kind == "path3":
+        return [(vs[0], vs[1]), (vs[1], vs[2])]
     n = len(vs)
     return [(vs[i], vs[(i + 1) % n]) for i in range(n)]
 
@@ -30,6 +32,11 @@ def motif_edges_named(t, vs):
         q1, p1, p2, q2 = vs
         s, w = topo_names(t)
         return [(q1, p1, s), (p1, p2, s), (p2, q2, s), (q1, p2, w), (q1, q2, w), (p1, q2, w)]
+    if t["kind"] == "path3":
+        # x -red- h -blue- y: the hub's corner carries one edge of each of two topologies
+        x, h, y = vs
+        r, b = topo_names(t)
+        return [(x, h, r), (h, y, b)]
     nm = topo_names(t)[0]
     return [(u, v, nm) for u, v in motif_edges(t["kind"], vs)]
 
@@ -47,6 +54,8 @@ def clean_network(draw, maxN=40, minN=6, max_motifs=60, topo_pool=None, min_topo
         t = {"kind": k, "size": s, "name": name}
         if k == "split4":
             t["names"] = [name + "-strong", name + "-weak"]
+        if k == "path3":
+            t["names"] = [name + "-red", name + "-blue"]
         topos.append(t)
     N = draw(st.integers(max(minN, max(s for _, s in chosen)), maxN))
     used = set()
@@ -122,7 +131,13 @@ def build_graph(case, graph_cls=None):
         G.add_node(v)
         # annotations are tuples as the generators write them, or lists (a network converted from a joint degree
         # sequence given as lists)
-        G.nodes[v][NN.JOINT_DEGREE] = list(jds[v]) if case.get("jd_type") == "list" else jds[v]
+        if case.get("jd_type") == "list":
+            G.nodes[v][NN.JOINT_DEGREE] = list(jds[v])
+        elif case.get("jd_type") == "ndarray":
+            import numpy as np
+            G.nodes[v][NN.JOINT_DEGREE] = np.array(jds[v])
+        else:
+            G.nodes[v][NN.JOINT_DEGREE] = jds[v]
     return G, jds
 
 
